@@ -213,8 +213,16 @@ class Hist:
                     zones.append((keys, int(tsmax)))
                     ondisk.update(keys)
                 shards[si]["segs"].append((mt, zones))
+        # an aggregate does not drop repeated ids: a key counted twice is visible in two places — in a segment and in
+        # the memtable (inside a flush window, or replayed from a WAL file that outlived its segment at a restart)
+        twice = set()
+        if ondisk:
+            rc = self.eng.rows("QUERY ev COUNT BY k")
+            if rc["status"] == 200:
+                twice = set(int(x["k"]) for x in rc["rows"] if int(x.get("count", 1)) > 1)
+        self.twice = twice
         for k, e in sorted(self.events.items()):
-            if k not in ondisk or k in window_keys:
+            if k not in ondisk or k in window_keys or k in twice:
                 shards[(e["id"] >> 12) & 0x3FF]["mem"].append(k)
         # the recorded zone timestamp_max must be the max core timestamp of the zone's rows (the model derives it)
         for s in shards:
@@ -258,18 +266,19 @@ class Hist:
         return fr
 
     def choice(self, shards, new_frames):
-        used, parts = set(), []
-        for mark, ks in new_frames:
-            cands = []
-            for si, s in enumerate(shards):
-                if ks and ks[0] in s["mem"]:
-                    cands.append(2 * si)
-                if ks and any(ks[0] in keys for mt, zones in s["segs"] for keys, _ in zones):
-                    cands.append(2 * si + 1)
-            idx = next((c for c in cands if c not in used), cands[0] if cands else 99)
-            used.add(idx)
-            parts.append(f"{idx}=" + "+".join(str(k) for k in ks))
-        return ";".join(parts) or "-"
+        """source index of every new frame: a source that holds all of the frame's keys (an event can sit in the
+        memtable and in a segment at once), frames with the fewest candidates first"""
+        src = {}
+        for si, s in enumerate(shards):
+            src[2 * si] = set(s["mem"])
+            src[2 * si + 1] = set(k for mt, zones in s["segs"] for keys, _ in zones for k in keys)
+        cands = [[i for i in sorted(src) if ks and set(ks) <= src[i]] for _, ks in new_frames]
+        idx = [None] * len(new_frames)
+        used = set()
+        for n in sorted(range(len(new_frames)), key=lambda n: len(cands[n])):
+            idx[n] = next((c for c in cands[n] if c not in used), cands[n][0] if cands[n] else 99)
+            used.add(idx[n])
+        return ";".join(f"{idx[n]}=" + "+".join(str(k) for k in ks) for n, (_, ks) in enumerate(new_frames)) or "-"
 
     @staticmethod
     def frames_str(new_frames):
